@@ -7,7 +7,11 @@
 (*             pick = split k (contains) or <<a, b>> (overlaps),          *)
 (*    splits = per candidate the list of <<pick, value>> over ALL picks   *)
 (*             (values summed over columns, from an independent scorer),  *)
-(*    out    = reported changepoints / <<a, b>> pairs (in order).         *)
+(*    out    = reported changepoints / <<a, b>> pairs (in order),         *)
+(*    rk, rkthr = dense ranks of the reported scores and of threshold_    *)
+(*             (order and equality preserved exactly): the greedy         *)
+(*             selection is judged on these without tolerance; the VALUE  *)
+(*             of a score is judged against the splits within tol.        *)
 (* record "pair": low, high = outputs for a lower / higher threshold.     *)
 (***************************************************************************)
 EXTENDS GreedyDefs, TLC, Json, IOUtils
@@ -33,7 +37,6 @@ RunVerdict(c) ==
          THEN "fail:interval_score_is_not_the_maximum"
        ELSE IF \E i \in 1..K : recorded(i) # {} /\ (pk[i] \notin recorded(i) \/ valAt(i, pk[i]) < Max(vals(i)) - c.tol)
          THEN "fail:interval_argmax_is_not_a_maximiser"
-       ELSE IF \E i \in 1..K : Abs(sc[i] - c.thr) <= c.tol /\ c.tol > 0 THEN "skip:score_within_rounding_of_threshold"
        ELSE IF Len(c.out) # Cardinality(outset) THEN "fail:duplicate_detection"
        ELSE IF c.mode = "contains" /\ ~(\A a, b \in outset \cup {0, c.n} : a # b => Abs(a - b) >= c.m)
          THEN "fail:segment_too_short"
@@ -42,7 +45,7 @@ RunVerdict(c) ==
                                         /\ \A a \in outset : a[1] >= 1 /\ a[2] <= c.n - 1 /\ a[2] - a[1] >= c.m
                                         /\ \A i \in 1..(Len(c.out) - 1) : c.out[i][2] <= c.out[i + 1][1])
          THEN "fail:anomalies_not_disjoint_inside_sorted"
-       ELSE IF ~GreedyAdmits(iv, sc, pk, c.thr, c.tol, c.mode, outset) THEN "fail:not_a_greedy_result"
+       ELSE IF ~GreedyAdmits(iv, c.rk, pk, c.rkthr, 0, c.mode, outset) THEN "fail:not_a_greedy_result"
        ELSE "ok"
 
 PairVerdict(c) == IF Range(c.high) \subseteq Range(c.low) THEN "ok" ELSE "fail:higher_threshold_added_detection"
